@@ -1,6 +1,12 @@
 """C13 - trace aggregation is order-independent and right for every partial trace.
 
-D1 every store of the ingest methods (normal form, helpers inlined) is a commutative merge (classified); aggregates
+Anchors are found by role from the public entry point ``TraceAggregator.ingest``: the functions that receive the record
+   (methods, module-level functions taking the aggregator or the container they mutate, values of a lookup table,
+   closures) are read off the dispatcher's normal form (match lowered, private sub-dispatchers inlined); per record type
+   the tests on ``record["record_type"]`` are evaluated on the CFG, which gives type -> handler and the coverage rule.
+   Each handler is analysed *as called* (``instantiate``: parameters replaced by the call's arguments, so ``runs`` is
+   ``self._runs``) and classified by the record types dispatched to it, never by its name.
+D1 every store of the ingest functions (normal form, helpers inlined) is a commutative merge (classified); aggregates
    are created from their key only; an aggregate that receives a merge is stored in the aggregator (CFG: no path
    construction -> merge -> return without a registration); a container entry is stored only when the lookup found
    nothing and is never removed (CFG: every path to `c[k] = agg` passes an edge guaranteeing absence); the unconditional
@@ -39,8 +45,6 @@ from ..report import Report
 
 AGG = "semantiva/trace/aggregation/aggregator.py"
 CLS = "TraceAggregator"
-# record types that are unique per key by the producer's lifecycle (C06-D1 / C09-D2)
-UNIQUE_PER_KEY = {"_ingest_pipeline_start", "_ingest_run_space_start", "_ingest_pipeline_end", "_ingest_run_space_end"}
 SER_LAST_WRITER = {"last_seq", "last_status", "timing", "last_error"}
 
 
@@ -77,8 +81,89 @@ def bad_ctor_args(c: ast.Call, rec: str, key_vars: Set[str]) -> str:
     return ""
 
 
-def classify_store(fn: ast.FunctionDef, st: ast.AST, target: ast.AST, rec: str, key_vars: Set[str], derived: Dict[str, ast.AST]) -> Tuple[str, str]:
-    """Return (class, detail) for a store into an aggregate."""
+class registration_keys:
+    """Role of a local as *key*: the names that make up the subscript under which an aggregate object is stored into a
+    container of the aggregator (``self._runs[run_id] = run``, ``c.setdefault(key, LaunchAggregate(..))``; a key that
+    is a local bound to a tuple brings the tuple's components along).  Calling the object with a constructor call
+    gives the key names of the store(s) that constructor's result goes to (all keys when no store is found - the
+    missing registration is reported by C13-D1-registered-aggregates)."""
+
+    def __init__(self, fn: ast.AST, state: Set[str], model_classes: Set[str]) -> None:
+        def is_ctor(e: ast.AST) -> bool:
+            return isinstance(e, ast.Call) and isinstance(e.func, ast.Name) and (e.func.id in model_classes or e.func.id[:1].isupper())
+
+        self.fresh: Set[str] = set()
+        ctors_of_local: Dict[str, List[ast.Call]] = {}
+        for n in walk_no_nested(fn):
+            if isinstance(n, (ast.Assign, ast.AnnAssign)) and n.value is not None:
+                tg = n.targets[0] if isinstance(n, ast.Assign) else n.target
+                cs = [l for l in _leaves(n.value) if is_ctor(l)]
+                # `x = c.setdefault(k, Ctor(..))` binds the constructed object as well
+                cs += [a for l in _leaves(n.value) if isinstance(l, ast.Call) and call_attr(l) == "setdefault" and len(l.args) == 2 for a in _leaves(l.args[1]) if is_ctor(a)]
+                if isinstance(tg, ast.Name) and cs:
+                    self.fresh.add(tg.id)
+                    ctors_of_local.setdefault(tg.id, []).extend(cs)
+        self.by_ctor: Dict[int, Set[str]] = {}
+        self.all: Set[str] = set()
+
+        def key_names(k: ast.AST) -> Set[str]:
+            names = {x.id for x in ast.walk(k) if isinstance(x, ast.Name)}
+            for _ in range(3):
+                for nm in list(names):
+                    for v in assigned_value(fn, nm):
+                        if isinstance(v, ast.Tuple):
+                            names |= {x.id for x in ast.walk(v) if isinstance(x, ast.Name)}
+            return names
+
+        regs: List[Tuple[ast.AST, ast.AST]] = []  # (key, stored value)
+        for n in walk_no_nested(fn):
+            if isinstance(n, (ast.Assign, ast.AnnAssign)) and n.value is not None:
+                for t in (n.targets if isinstance(n, ast.Assign) else [n.target]):
+                    if isinstance(t, ast.Subscript) and _root_name(t) in state | self.fresh:
+                        regs.append((t.slice, n.value))
+            if isinstance(n, ast.Call) and isinstance(n.func, ast.Attribute) and n.func.attr in ("setdefault", "__setitem__") and len(n.args) == 2 and _root_name(n.func) in state | self.fresh:
+                regs.append((n.args[0], n.args[1]))
+        for k, v in regs:
+            cs: List[ast.Call] = []
+            for l in _leaves(v):
+                if is_ctor(l):
+                    cs.append(l)
+                elif isinstance(l, ast.Name):
+                    cs += ctors_of_local.get(l.id, [])
+            if not cs:
+                continue  # a counter / scalar entry, not an aggregate
+            names = key_names(k)
+            self.all |= names
+            for c in cs:
+                self.by_ctor.setdefault(id(c), set()).update(names)
+
+    def __call__(self, ctor: ast.AST) -> Set[str]:
+        return self.by_ctor.get(id(ctor), self.all)
+
+
+def is_old_entry(fn: ast.AST, e: ast.AST, target: ast.Subscript, depth: int = 0) -> bool:
+    """*e* is the value the container held under the target's key (0 when absent): ``c.get(k, 0)``, ``c.get(k) or 0``,
+    ``c[k]``, or a local whose only binding is one of these."""
+    cont, key = _d(target.value), _d(target.slice)
+    if isinstance(e, ast.Call) and call_attr(e) == "get" and isinstance(e.func, ast.Attribute) and 1 <= len(e.args) <= 2 and _d(e.func.value) == cont and _d(e.args[0]) == key:
+        return len(e.args) == 1 or (isinstance(e.args[1], ast.Constant) and e.args[1].value == 0)
+    if isinstance(e, ast.BoolOp) and isinstance(e.op, ast.Or) and len(e.values) == 2 and isinstance(e.values[1], ast.Constant) and e.values[1].value == 0:
+        return is_old_entry(fn, e.values[0], target, depth + 1)
+    if isinstance(e, ast.Subscript) and _d(e.value) == cont and _d(e.slice) == key:
+        return True
+    if isinstance(e, ast.Name) and depth < 3:
+        vals = assigned_value(fn, e.id)
+        stores = [x for x in walk_no_nested(fn) if isinstance(x, ast.Name) and x.id == e.id and isinstance(x.ctx, ast.Store)]
+        return len(vals) == 1 and len(stores) == 1 and is_old_entry(fn, vals[0], target, depth + 1)
+    return False
+
+
+def classify_store(fn: ast.FunctionDef, st: ast.AST, target: ast.AST, rec: str, keys_of, derived: Dict[str, ast.AST], types: Optional[Set[str]] = None) -> Tuple[str, str]:
+    """Return (class, detail) for a store into an aggregate.  *types*: the record types the function is dispatched
+    for (role, not name): a SER handler's last-writer fields commute under the producer invariant, a lifecycle record
+    is unique per key."""
+    is_ser = bool(types) and types == {"ser"}
+    is_unique = bool(types) and types <= LIFECYCLE
     guards = _guards(st, fn)
     value = getattr(st, "value", None)
     tname = dotted_name(target) if not isinstance(target, ast.Subscript) else (dotted_name(target.value) or "") + "[...]"
@@ -93,17 +178,17 @@ def classify_store(fn: ast.FunctionDef, st: ast.AST, target: ast.AST, rec: str, 
             ctor_defs = [value]
         if ctor_defs:
             for c in ctor_defs:
-                bad = bad_ctor_args(c, rec, key_vars)
+                bad = bad_ctor_args(c, rec, keys_of(c))
                 if bad:
                     return "bad-create", bad
             return "create-if-absent", tname
     # counter: x[k] = x.get(k, 0) + 1  /  x += 1
     if isinstance(st, ast.AugAssign) and isinstance(st.op, ast.Add):
         return "counter", tname
-    if isinstance(value, ast.BinOp) and isinstance(value.op, ast.Add) and isinstance(value.right, ast.Constant) and isinstance(target, ast.Subscript):
-        left = value.left
-        if isinstance(left, ast.Call) and call_attr(left) == "get" and dotted_name(left.func.value) == dotted_name(target.value):
-            return "counter", tname
+    if isinstance(value, ast.BinOp) and isinstance(value.op, ast.Add) and isinstance(target, ast.Subscript):
+        for step, old_v in ((value.right, value.left), (value.left, value.right)):
+            if isinstance(step, ast.Constant) and isinstance(step.value, int) and not isinstance(step.value, bool) and step.value > 0 and is_old_entry(fn, old_v, target):
+                return "counter", tname
     # flag := True
     if isinstance(value, ast.Constant) and value.value is True:
         return "flag", tname
@@ -117,20 +202,110 @@ def classify_store(fn: ast.FunctionDef, st: ast.AST, target: ast.AST, rec: str, 
             l, r = dotted_name(cmp_.left), dotted_name(cmp_.comparators[0])
             if {l, r} == {vname, field} and vname is not None:
                 none_alt = any(isinstance(c, ast.Compare) and isinstance(c.ops[0], ast.Is) and dotted_name(c.left) == field for c in ast.walk(t))
-                return ("minmax", tname) if none_alt else ("bad-minmax", "min/max merge without the `is None` alternative")
+                if none_alt or _minmax_by_flow(fn, st, target, value) is not None:
+                    return "minmax", tname
+                return "bad-minmax", "min/max merge without the `is None` alternative"
+    mm = _minmax_by_flow(fn, st, target, value)
+    if mm is not None:
+        return mm, tname
     # assign-if-present from the record
     if value is not None and _is_record_read(value, rec) or (vname in derived):
         present = any(pol and (_is_record_read(t, rec) or any(isinstance(x, ast.Name) and x.id in derived for x in ast.walk(t))) for t, pol in guards)
-        if fn.name == "_ingest_ser":
+        if is_ser:
             attr = target.attr if isinstance(target, ast.Attribute) else ""
             if attr in SER_LAST_WRITER:
                 return "last-writer-ser", tname
             return "bad-overwrite", "a SER field overwrites shared state unconditionally"
-        if fn.name in UNIQUE_PER_KEY:
+        if is_unique:
             return ("assign-if-present" if present else "assign-unique"), tname
-    if fn.name == "_ingest_ser" and isinstance(target, ast.Attribute) and target.attr in SER_LAST_WRITER:
+    if is_ser and isinstance(target, ast.Attribute) and target.attr in SER_LAST_WRITER:
         return "last-writer-ser", tname
     return "unclassified", tname
+
+
+def _cfg_of(fn: ast.AST):
+    from ..cfg import CFG
+    g = getattr(fn, "_c13_cfg", None)
+    if g is None:
+        g = CFG(fn)
+        fn._c13_cfg = g  # type: ignore[attr-defined]
+    return g
+
+
+def _minmax_by_flow(fn: ast.AST, st: ast.AST, target: ast.AST, value: Optional[ast.AST]) -> Optional[str]:
+    """``F = v`` is a min / max merge when it happens exactly under ``F is None or v < F`` (one direction), however
+    the condition is spread over tests: decided on the CFG for the group of stores of the same value into the same
+    field - every one of them is dominated by edges guaranteeing the condition, and both the `is None` alternative and
+    the ordering test guard some member.  Also ``F = v if F is None else min(F, v)``."""
+    from ..cfg import edges_guaranteeing
+
+    if value is None or not isinstance(st, (ast.Assign, ast.AnnAssign)) or not isinstance(target, ast.Attribute):
+        return None
+    F = _d(target)
+
+    def none_atom(e: ast.AST) -> Optional[bool]:
+        if _d(e) == F:
+            return False
+        if isinstance(e, ast.Compare) and len(e.ops) == 1 and _d(e.left) == F and _is_none(e.comparators[0]):
+            return True if isinstance(e.ops[0], (ast.Is, ast.Eq)) else False if isinstance(e.ops[0], (ast.IsNot, ast.NotEq)) else None
+        return None
+
+    if isinstance(value, ast.IfExp):
+        edges = edges_guaranteeing(value.test, none_atom)
+        first, other = (value.body, value.orelse) if "T" in edges else (value.orelse, value.body) if "F" in edges else (None, None)
+        if first is not None and isinstance(other, ast.Call) and call_name(other) in ("min", "max") and len(other.args) == 2 and not other.keywords:
+            if sorted(_d(a) for a in other.args) == sorted([F, _d(first)]):
+                return "minmax"
+        return None
+    V = _d(value)
+    g = _cfg_of(fn)
+    group = [n for n in walk_no_nested(fn) if isinstance(n, (ast.Assign, ast.AnnAssign)) and n.value is not None and _d(n.value) == V and any(_d(t) == F for t in (n.targets if isinstance(n, ast.Assign) else [n.target]))]
+    for direction in ("lt", "gt"):
+        def cmp_atom(e: ast.AST) -> Optional[bool]:
+            if isinstance(e, ast.Compare) and len(e.ops) == 1:
+                l, r, op = _d(e.left), _d(e.comparators[0]), e.ops[0]
+                less = isinstance(op, (ast.Lt, ast.LtE))
+                more = isinstance(op, (ast.Gt, ast.GtE))
+                if (l, r) == (V, F) and (less or more):
+                    return (less if direction == "lt" else more) or None
+                if (l, r) == (F, V) and (less or more):
+                    return (more if direction == "lt" else less) or None
+            return None
+
+        def either(e: ast.AST) -> Optional[bool]:
+            a = none_atom(e)
+            if a is True:
+                return True
+            c = cmp_atom(e)
+            if c is True:
+                return True
+            return a  # `F` / `F is not None` is the negation of the None alternative only
+
+        blocked: Set[Tuple[int, str]] = set()
+        has_none = has_cmp = False
+        tests = [n for n in g.nodes if n.kind in ("if", "while") and n.part is not None]
+        for n in tests:
+            for lab in edges_guaranteeing(n.part, lambda e: True if none_atom(e) is True else True if cmp_atom(e) is True else None):
+                blocked.add((n.id, lab))
+            # `not F` style: the None alternative as the false edge of a truthiness test
+            for lab in edges_guaranteeing(n.part, none_atom):
+                blocked.add((n.id, lab))
+        seen = g.reach([g.entry], blocked_edges=blocked)
+        nodes = [x for n in group for x in g.nodes_for(n)]
+        if not nodes or any(x in seen for x in nodes):
+            continue
+        for n in tests:
+            for atom, which in ((none_atom, "none"), (cmp_atom, "cmp")):
+                for lab in edges_guaranteeing(n.part, atom):
+                    starts = [x for x, l in g.succ[n.id] if l == lab]
+                    if starts and set(nodes) & set(g.reach(starts)):
+                        if which == "none":
+                            has_none = True
+                        else:
+                            has_cmp = True
+        if has_none and has_cmp:
+            return "minmax"
+    return None
 
 
 # ---------------------------------------------------------------------------------------------------------
@@ -510,13 +685,74 @@ class _Unknown:
     __hash__ = object.__hash__
 
 
-def _tree_of_expr(e: ast.AST):
+BOOL_FIELDS: Set[str] = set()  # bool-annotated fields of the aggregate classes (filled by _run from models.py)
+
+
+def _boolean_valued(e: ast.AST) -> bool:
+    """The expression evaluates to True / False themselves (so that it can be matched against a bool key)."""
+    if isinstance(e, ast.Constant):
+        return isinstance(e.value, bool)
+    if isinstance(e, ast.Attribute):
+        return e.attr in BOOL_FIELDS
+    if isinstance(e, ast.UnaryOp) and isinstance(e.op, ast.Not):
+        return True
+    if isinstance(e, ast.Compare):
+        return True
+    if isinstance(e, ast.Call):
+        return call_name(e) == "bool" and len(e.args) == 1
+    if isinstance(e, ast.BoolOp):
+        return all(_boolean_valued(v) for v in e.values)
+    return False
+
+
+def _table_tree(e: ast.AST, fn: Optional[ast.AST]):
+    """Decision tree of a lookup in a small literal table keyed by booleans (``{(True, False): "partial", ..}.get((a, b),
+    default)``): one test per entry - the conjunction of the key components with the entry's polarities."""
+    if isinstance(e, ast.Call) and isinstance(e.func, ast.Attribute) and e.func.attr == "get" and 1 <= len(e.args) <= 2 and not e.keywords:
+        tbl, key, default = e.func.value, e.args[0], (e.args[1] if len(e.args) == 2 else ast.Constant(value=None))
+    elif isinstance(e, ast.Subscript):
+        tbl, key, default = e.value, e.slice, None
+    else:
+        return None
+    if isinstance(tbl, ast.Name) and fn is not None:
+        vals = assigned_value(fn, tbl.id)
+        stores = [x for x in walk_no_nested(fn) if isinstance(x, ast.Name) and x.id == tbl.id and isinstance(x.ctx, ast.Store)]
+        if len(vals) != 1 or len(stores) != 1:
+            return None
+        if any(_root_name(obj) == tbl.id for _st, obj in _store_sites(fn)):
+            return None
+        tbl = vals[0]
+    if not isinstance(tbl, ast.Dict) or not tbl.keys or any(k is None for k in tbl.keys):
+        return None
+    elems = list(key.elts) if isinstance(key, ast.Tuple) else [key]
+    if not all(_boolean_valued(x) for x in elems):
+        return None
+    rows = []
+    for k, v in zip(tbl.keys, tbl.values):
+        ks = list(k.elts) if isinstance(k, ast.Tuple) else [k]
+        if len(ks) != len(elems) or not all(isinstance(x, ast.Constant) and isinstance(x.value, bool) for x in ks) or isinstance(k, ast.Tuple) != isinstance(key, ast.Tuple):
+            return None
+        rows.append(([x.value for x in ks], v))
+    tree = _tree_of_expr(default, fn) if default is not None else ("leaf", _Unknown(e))
+    for pol, v in reversed(rows):
+        parts = [x if p else ast.UnaryOp(op=ast.Not(), operand=x) for x, p in zip(elems, pol)]
+        test = parts[0] if len(parts) == 1 else ast.BoolOp(op=ast.And(), values=parts)
+        ast.copy_location(test, e)
+        ast.fix_missing_locations(test)
+        tree = ("if", test, _tree_of_expr(v, fn), tree)
+    return tree
+
+
+def _tree_of_expr(e: ast.AST, fn: Optional[ast.AST] = None):
     if isinstance(e, ast.Constant):
         return ("leaf", e.value)
     if isinstance(e, ast.IfExp):
-        return ("if", e.test, _tree_of_expr(e.body), _tree_of_expr(e.orelse))
+        return ("if", e.test, _tree_of_expr(e.body, fn), _tree_of_expr(e.orelse, fn))
     if isinstance(e, ast.Call) and call_name(e) == "cast" and len(e.args) == 2:
-        return _tree_of_expr(e.args[1])
+        return _tree_of_expr(e.args[1], fn)
+    t = _table_tree(e, fn)
+    if t is not None:
+        return t
     return ("leaf", _Unknown(e))
 
 
@@ -524,7 +760,7 @@ def value_tree(fn: ast.FunctionDef, value: ast.AST, at: ast.AST):
     """Decision tree (over the tests of if statements / conditional expressions) of the constant that *value*
     holds when statement *at* (a top-level statement of *fn*) is reached."""
     if not isinstance(value, ast.Name):
-        return _tree_of_expr(value)
+        return _tree_of_expr(value, fn)
     var = value.id
 
     def assigns(node: ast.AST) -> bool:
@@ -539,7 +775,7 @@ def value_tree(fn: ast.FunctionDef, value: ast.AST, at: ast.AST):
                 if not (isinstance(tg, ast.Name) and (isinstance(st, ast.AnnAssign) or len(st.targets) == 1)):
                     raise AnalysisError(f"{fn.name}: verdict variable {var} assigned by unpacking")
                 if st.value is not None:
-                    cur = _tree_of_expr(st.value)
+                    cur = _tree_of_expr(st.value, fn)
             elif isinstance(st, ast.If):
                 b = block(st.body, cur)
                 o = block(st.orelse, cur)
@@ -735,7 +971,7 @@ def check_entries_kept(R: Report, rule: str, fn: ast.FunctionDef, qual: str, rec
         value = st.value
         cont, key = obj.value, obj.slice
         # counters (`c[k] = c.get(k, 0) + 1`) are merges of the old value, not replacements
-        if isinstance(value, ast.BinOp) and isinstance(value.op, ast.Add) and any(_d(x) in lookup_forms(cont, key) or (isinstance(x, ast.Call) and call_attr(x) == "get" and x.args and _d(x.func.value) == _d(cont) and _d(x.args[0]) == _d(key)) for x in (value.left, value.right)):
+        if isinstance(value, ast.BinOp) and isinstance(value.op, ast.Add) and any(_d(x) in lookup_forms(cont, key) or is_old_entry(fn, x, obj) or (isinstance(x, ast.Call) and call_attr(x) == "get" and x.args and _d(x.func.value) == _d(cont) and _d(x.args[0]) == _d(key)) for x in (value.left, value.right)):
             continue
         forms = lookup_forms(cont, key)
         sids = g.nodes_for(stmt)
@@ -1160,6 +1396,423 @@ def check_verdict_not_rewritten(R: Report, rule: str, fn: ast.FunctionDef, qual:
         R.ok(rule, AGG, qual, f"{fn.name}: verdict objects returned as built", "", fn.lineno)
 
 
+# ---------------------------------------------------------------------------------------------------------
+# roles: which function ends up merging which record type (found from the public entry point `ingest`)
+# ---------------------------------------------------------------------------------------------------------
+
+WANTED = ("run_space_start", "run_space_end", "pipeline_start", "pipeline_end", "ser")
+# record types that are unique per key by the producer's lifecycle (C06-D1 / C09-D2)
+LIFECYCLE = {"run_space_start", "run_space_end", "pipeline_start", "pipeline_end"}
+TYPE_FIELD = "record_type"
+
+
+class _Unk:
+    def __repr__(self) -> str:
+        return "<unknown>"
+
+
+_UNK = _Unk()
+
+
+class _Ref:
+    """A reference to something callable (bound method, function name, lambda, nested def)."""
+    def __init__(self, node: ast.AST) -> None:
+        self.node = node
+
+
+class _Table:
+    def __init__(self, node: ast.Dict) -> None:
+        self.node = node
+
+    def entry(self, key) -> Optional[ast.AST]:
+        for k, v in zip(self.node.keys, self.node.values):
+            if k is None or not isinstance(k, ast.Constant):
+                raise AnalysisError(f"dispatch table with a computed key: {norm(self.node, 80)}")
+            if type(k.value) is type(key) and k.value == key:
+                return v
+        return None
+
+
+def _is_type_read(e: ast.AST, rec: str) -> bool:
+    """``rec.get("record_type"[, default])`` / ``rec["record_type"]``."""
+    if isinstance(e, ast.Subscript) and isinstance(e.value, ast.Name) and e.value.id == rec:
+        return isinstance(e.slice, ast.Constant) and e.slice.value == TYPE_FIELD
+    if isinstance(e, ast.Call) and isinstance(e.func, ast.Attribute) and e.func.attr == "get" and isinstance(e.func.value, ast.Name) and e.func.value.id == rec:
+        return bool(e.args) and isinstance(e.args[0], ast.Constant) and e.args[0].value == TYPE_FIELD
+    return False
+
+
+def _passes(call: ast.Call, name: str) -> bool:
+    return any(isinstance(a, ast.Name) and a.id == name for a in list(call.args) + [k.value for k in call.keywords])
+
+
+def _is_method(fn: ast.AST) -> bool:
+    return isinstance(parent(fn), ast.ClassDef) and not any(dotted_name(d) == "staticmethod" for d in fn.decorator_list)
+
+
+def bind_call(callee: ast.AST, call: ast.Call) -> Optional[Dict[str, ast.AST]]:
+    """parameter name -> argument expression of *call* (receiver included for methods); None when not understood."""
+    a = callee.args
+    if a.vararg or a.kwarg or any(isinstance(x, ast.Starred) for x in call.args) or any(k.arg is None for k in call.keywords):
+        return None
+    pos = list(a.posonlyargs + a.args)
+    out: Dict[str, ast.AST] = {}
+    if _is_method(callee):
+        if not pos or not isinstance(call.func, ast.Attribute):
+            return None
+        out[pos[0].arg] = call.func.value
+        pos = pos[1:]
+    if len(call.args) > len(pos):
+        return None
+    for p, v in zip(pos, call.args):
+        out[p.arg] = v
+    names = {p.arg for p in pos} | {p.arg for p in a.kwonlyargs}
+    for k in call.keywords:
+        if k.arg not in names or k.arg in out:
+            return None
+        out[k.arg] = k.value
+    allpos = a.posonlyargs + a.args
+    defaults = dict(zip([p.arg for p in allpos][len(allpos) - len(a.defaults):], a.defaults))
+    defaults.update({p.arg: d for p, d in zip(a.kwonlyargs, a.kw_defaults) if d is not None})
+    for p in pos + list(a.kwonlyargs):
+        if p.arg not in out:
+            if p.arg not in defaults:
+                return None
+            out[p.arg] = defaults[p.arg]
+    return out
+
+
+def _record_callees(repo: Repo, mod, fn: ast.AST, rec: str, pkg: str):
+    """(call, module, callee, callee's record parameter) for every call of *fn* - closures included - that hands the
+    record on to a function of the aggregation package."""
+    out = []
+    for c in ast.walk(fn):
+        if not (isinstance(c, ast.Call) and _passes(c, rec)):
+            continue
+        targets = [(m, t) for m, t in repo.resolve_call(mod, c) if isinstance(t, FuncNode) and m.rel.startswith(pkg)]
+        if len(targets) != 1:
+            continue
+        m2, callee = targets[0]
+        b = bind_call(callee, c)
+        if b is None:
+            raise AnalysisError(f"call `{norm(c, 80)}` hands the record to {callee.name}, but its arguments cannot be bound to the parameters")
+        rps = [p for p, v in b.items() if isinstance(v, ast.Name) and v.id == rec]
+        if len(rps) != 1:
+            raise AnalysisError(f"call `{norm(c, 80)}`: the record is bound to {len(rps)} parameters of {callee.name}")
+        out.append((c, m2, callee, rps[0]))
+    return out
+
+
+def find_handlers(repo: Repo, mod, fn: ast.AST, rec: str, pkg: str, out: Dict[int, Tuple[object, ast.AST]], seen: Set[int], depth: int = 0) -> None:
+    """Functions that receive the record from the dispatcher *fn*.  A private callee that itself looks at the record
+    type is a part of the dispatcher (the normal form inlines it) and is searched in turn."""
+    if depth > 4:
+        raise AnalysisError("dispatch of records is nested too deep")
+    for _c, m2, callee, rp in _record_callees(repo, mod, fn, rec, pkg):
+        if id(callee) in seen:
+            continue
+        seen.add(id(callee))
+        # a part of the dispatcher knows the record's type: it reads it from the record or is told it by the caller
+        b = bind_call(callee, _c) or {}
+        told = any(_is_type_read(v, rec) or (isinstance(v, ast.Name) and any(_is_type_read(a, rec) for a in assigned_value(fn, v.id))) for v in b.values())
+        sub = (told or any(_is_type_read(x, rp) for x in ast.walk(callee))) and callee.name.startswith("_") and not callee.name.startswith("__") and m2 is mod
+        if sub:
+            find_handlers(repo, m2, callee, rp, pkg, out, seen, depth + 1)
+        else:
+            out[id(callee)] = (m2, callee)
+    # functions named without being called (values of a lookup table, `h = self._ingest_ser`): candidates that the
+    # dispatcher may call with the record later; which of them is called for which type is decided on the normal form
+    for x in ast.walk(fn):
+        if not isinstance(x, (ast.Attribute, ast.Name)) or not isinstance(x.ctx, ast.Load):
+            continue
+        par = parent(x)
+        if (isinstance(par, ast.Call) and par.func is x) or isinstance(par, ast.Attribute):
+            continue
+        if isinstance(x, ast.Attribute) and not (isinstance(x.value, ast.Name) and x.value.id == "self"):
+            continue
+        probe = ast.Call(func=x, args=[], keywords=[])
+        probe._parent = par  # type: ignore[attr-defined]
+        for m2, t in repo.resolve_call(mod, probe):
+            if isinstance(t, FuncNode) and m2.rel.startswith(pkg) and id(t) not in seen and len(t.args.posonlyargs + t.args.args) >= (2 if _is_method(t) else 1):
+                seen.add(id(t))
+                out[id(t)] = (m2, t)
+
+
+class Dispatch:
+    """Result of reading the dispatcher: per record type the statement that hands the record over, the function that
+    receives it and the call that binds its parameters."""
+    def __init__(self) -> None:
+        self.fn: Optional[ast.FunctionDef] = None  # normal form of the dispatcher, handlers kept as calls
+        self.rec = ""
+        self.by_type: Dict[str, List[Tuple[ast.stmt, object, ast.AST, ast.Call]]] = {}
+        self.uncovered: Dict[str, List[str]] = {}
+        self.handlers: Dict[int, Tuple[object, ast.AST]] = {}
+
+
+def read_dispatch(repo: Repo, cls: ast.ClassDef, entry: str = "ingest") -> Dispatch:
+    from ..cfg import CFG, reaching_defs
+    from ..normal import normalize
+
+    mod = repo.module(AGG)
+    pkg = AGG.rsplit("/", 1)[0] + "/"
+    ing = repo.func(AGG, f"{CLS}.{entry}")
+    if len(ing.args.args) < 2 or ing.args.args[0].arg != "self":
+        raise AnalysisError(f"{CLS}.{entry}: (self, record) parameters not found")
+    rec = ing.args.args[1].arg
+    D = Dispatch()
+    D.rec = rec
+    find_handlers(repo, mod, ing, rec, pkg, D.handlers, {id(ing)})
+    if not D.handlers:
+        raise AnalysisError(f"{CLS}.{entry}: no function of the aggregation package receives the record")
+    keep = tuple(sorted({h.name for _m, h in D.handlers.values()}))
+    dfn = normalize(repo, mod, ing, keep=keep, copyprop="all")
+    D.fn = dfn
+    g = CFG(dfn)
+    nested_defs = {n.name: n for n in ast.walk(dfn) if isinstance(n, FuncNode) and n is not dfn}
+
+    def handler_call(ref: ast.AST, call: ast.Call) -> Optional[Tuple[object, ast.AST, ast.Call]]:
+        """(module, handler, binding call) when calling *ref* through *call* hands the record to a handler."""
+        if isinstance(ref, (ast.Attribute, ast.Name)) and not (isinstance(ref, ast.Name) and ref.id in nested_defs):
+            probe = ast.Call(func=ref, args=call.args, keywords=call.keywords)
+            probe._parent = parent(call)  # type: ignore[attr-defined]
+            for m2, t in repo.resolve_call(mod, probe):
+                if id(t) in D.handlers and _passes(call, rec):
+                    ast.copy_location(probe, call)
+                    return m2, t, probe
+            return None
+        closure = nested_defs.get(ref.id) if isinstance(ref, ast.Name) else ref if isinstance(ref, ast.Lambda) else None
+        if closure is None:
+            return None
+        # the closure either captures the record or takes it as a parameter
+        cparams = [a.arg for a in closure.args.posonlyargs + closure.args.args]
+        inner_rec = rec
+        if cparams:
+            given = {p: v for p, v in zip(cparams, call.args)}
+            hit = [p for p, v in given.items() if isinstance(v, ast.Name) and v.id == rec]
+            if len(hit) != 1:
+                return None
+            inner_rec = hit[0]
+        found = []
+        for c in ast.walk(closure):
+            if isinstance(c, ast.Call) and _passes(c, inner_rec):
+                for m2, t in repo.resolve_call(mod, c):
+                    if id(t) in D.handlers:
+                        found.append((m2, t, c))
+        if len(found) != 1:
+            return None
+        if inner_rec != rec:
+            m2, t, c = found[0]
+            c2 = ast.Call(func=c.func, args=[ast.Name(id=rec, ctx=ast.Load()) if isinstance(a, ast.Name) and a.id == inner_rec else a for a in c.args], keywords=[ast.keyword(arg=k.arg, value=ast.Name(id=rec, ctx=ast.Load()) if isinstance(k.value, ast.Name) and k.value.id == inner_rec else k.value) for k in c.keywords])
+            ast.copy_location(c2, c)
+            c2._parent = parent(c)  # type: ignore[attr-defined]
+            return m2, t, c2
+        return found[0]
+
+    def value(e: ast.AST, nid: int, T: str, depth: int = 0):
+        """Value of *e* at CFG node *nid* when the record's type is T (constants, tables and callables only)."""
+        if depth > 8:
+            return _UNK
+        if isinstance(e, ast.Constant):
+            return e.value
+        if _is_type_read(e, rec):
+            return T
+        if isinstance(e, ast.NamedExpr):
+            return value(e.value, nid, T, depth + 1)
+        if isinstance(e, ast.Name):
+            if e.id == rec:
+                return _Table(ast.Dict(keys=[ast.Constant(value=TYPE_FIELD)], values=[ast.Constant(value=T)]))  # a non-empty mapping
+            defs = reaching_defs(g, e.id, nid)
+            if not defs:
+                if e.id in nested_defs or repo.resolve_name(mod, e, dfn) is not None:
+                    return _Ref(e)
+                return _UNK
+            vals = []
+            for d in defs:
+                a = d.ast
+                if not (isinstance(a, (ast.Assign, ast.AnnAssign)) and a.value is not None):
+                    return _UNK
+                tg = a.targets[0] if isinstance(a, ast.Assign) else a.target
+                if not isinstance(tg, ast.Name) or (isinstance(a, ast.Assign) and len(a.targets) != 1):
+                    return _UNK
+                vals.append(value(a.value, d.id, T, depth + 1))
+            if len(vals) == 1:
+                return vals[0]
+            if all(not isinstance(v, (_Unk, _Ref, _Table)) for v in vals) and all(type(v) is type(vals[0]) and v == vals[0] for v in vals):
+                return vals[0]
+            return _UNK
+        if isinstance(e, ast.Attribute):
+            if isinstance(e.value, ast.Name) and e.value.id == "self" and repo.method(mod, cls, e.attr) is not None:
+                return _Ref(e)
+            return _UNK
+        if isinstance(e, ast.Lambda):
+            return _Ref(e)
+        if isinstance(e, ast.Dict):
+            return _Table(e)
+        if isinstance(e, ast.Subscript):
+            t, k = value(e.value, nid, T, depth + 1), value(e.slice, nid, T, depth + 1)
+            if isinstance(t, _Table) and not isinstance(k, (_Unk, _Ref, _Table)):
+                v = t.entry(k)
+                return _UNK if v is None else value(v, nid, T, depth + 1)
+            return _UNK
+        if isinstance(e, ast.UnaryOp) and isinstance(e.op, ast.Not):
+            v = truth(value(e.operand, nid, T, depth + 1))
+            return _UNK if v is None else (not v)
+        if isinstance(e, ast.BoolOp):
+            last = _UNK
+            for sub in e.values:
+                last = value(sub, nid, T, depth + 1)
+                tv = truth(last)
+                if tv is None:
+                    return _UNK
+                if tv is (not isinstance(e.op, ast.And)):
+                    return last  # short circuit: `or` on a true operand, `and` on a false one
+            return last
+        if isinstance(e, ast.IfExp):
+            tv = truth(value(e.test, nid, T, depth + 1))
+            return _UNK if tv is None else value(e.body if tv else e.orelse, nid, T, depth + 1)
+        if isinstance(e, ast.Compare) and len(e.ops) == 1:
+            l, r = value(e.left, nid, T, depth + 1), value(e.comparators[0], nid, T, depth + 1)
+            op = e.ops[0]
+            if isinstance(op, (ast.In, ast.NotIn)):
+                if isinstance(l, (_Unk, _Ref, _Table)):
+                    return _UNK
+                if isinstance(r, _Table):
+                    found = r.entry(l) is not None
+                elif isinstance(e.comparators[0], (ast.Tuple, ast.List, ast.Set)) and all(isinstance(x, ast.Constant) for x in e.comparators[0].elts):
+                    found = any(type(x.value) is type(l) and x.value == l for x in e.comparators[0].elts)
+                else:
+                    return _UNK
+                return found if isinstance(op, ast.In) else not found
+            if isinstance(l, _Unk) or isinstance(r, _Unk):
+                return _UNK
+            if isinstance(l, (_Ref, _Table)) or isinstance(r, (_Ref, _Table)):
+                # a callable / table is not None and not equal to a constant
+                if isinstance(l, (_Ref, _Table)) and isinstance(r, (_Ref, _Table)):
+                    return _UNK
+                return True if isinstance(op, (ast.IsNot, ast.NotEq)) else False if isinstance(op, (ast.Is, ast.Eq)) else _UNK
+            if isinstance(op, (ast.Eq, ast.Is)):
+                return type(l) is type(r) and l == r
+            if isinstance(op, (ast.NotEq, ast.IsNot)):
+                return not (type(l) is type(r) and l == r)
+            return _UNK
+        if isinstance(e, ast.Call):
+            fn_name = call_name(e)
+            if fn_name == "isinstance" and len(e.args) == 2:
+                v = value(e.args[0], nid, T, depth + 1)
+                if isinstance(v, str) and dotted_name(e.args[1]) == "str":
+                    return True
+                if isinstance(e.args[0], ast.Name) and e.args[0].id == rec and (dotted_name(e.args[1]) or "").split(".")[-1] in ("dict", "Mapping", "MutableMapping"):
+                    return True  # the hypothesis is a record (a mapping) of type T
+                return _UNK
+            if fn_name in ("bool", "callable") and len(e.args) == 1:
+                v = value(e.args[0], nid, T, depth + 1)
+                if fn_name == "callable":
+                    return True if isinstance(v, _Ref) else _UNK
+                tv = truth(v)
+                return _UNK if tv is None else tv
+            if fn_name == "getattr" and len(e.args) in (2, 3) and isinstance(e.args[0], ast.Name) and e.args[0].id == "self":
+                v = value(e.args[1], nid, T, depth + 1)
+                if isinstance(v, str) and repo.method(mod, cls, v) is not None:
+                    return _Ref(ast.copy_location(ast.Attribute(value=e.args[0], attr=v, ctx=ast.Load()), e))
+                return _UNK
+            if isinstance(e.func, ast.Attribute) and e.func.attr == "get" and len(e.args) in (1, 2) and not e.keywords:
+                t, k = value(e.func.value, nid, T, depth + 1), value(e.args[0], nid, T, depth + 1)
+                if isinstance(t, _Table) and not isinstance(k, (_Unk, _Ref, _Table)):
+                    v = t.entry(k)
+                    if v is not None:
+                        return value(v, nid, T, depth + 1)
+                    return value(e.args[1], nid, T, depth + 1) if len(e.args) == 2 else None
+            return _UNK
+        return _UNK
+
+    def truth(v) -> Optional[bool]:
+        if isinstance(v, _Unk):
+            return None
+        if isinstance(v, _Ref):
+            return True
+        if isinstance(v, _Table):
+            return bool(v.node.keys)
+        return bool(v)
+
+    calls = [(c, stmt_of(c)) for c in calls_in(dfn)]
+    for T in WANTED:
+        blocked: Set[Tuple[int, str]] = set()
+        for n in g.nodes:
+            if n.kind in ("if", "while") and n.part is not None:
+                tv = truth(value(n.part, n.id, T))
+                if tv is True:
+                    blocked.add((n.id, "F"))
+                elif tv is False:
+                    blocked.add((n.id, "T"))
+        seen = g.reach([g.entry], blocked_edges=blocked, skip_labels={"EXC", "BASE"})
+        sites: List[Tuple[ast.stmt, object, ast.AST, ast.Call]] = []
+        site_nodes: Set[int] = set()
+        for c, st in calls:
+            nids = [x for x in g.nodes_for(st) if x in seen]
+            if not nids:
+                continue
+            ref = value(c.func, nids[0], T)
+            if not isinstance(ref, _Ref):
+                continue
+            hit = handler_call(ref.node, c)
+            if hit is None:
+                continue
+            sites.append((st, hit[0], hit[1], hit[2]))
+            site_nodes.update(nids)
+        D.by_type[T] = sites
+        bad = g.must_pass([g.entry], [g.ret_exit], lambda nd: nd.id in site_nodes, blocked_edges=blocked, skip_labels={"EXC", "BASE"})
+        if bad or not sites:
+            D.uncovered[T] = bad[0][1] if bad else []
+    return D
+
+
+class _Rename(ast.NodeTransformer):
+    def __init__(self, mapping: Dict[str, ast.AST]) -> None:
+        self.mapping = mapping
+
+    def visit_Name(self, node: ast.Name):
+        if node.id in self.mapping:
+            if not isinstance(node.ctx, ast.Load):
+                raise AnalysisError(f"parameter `{node.id}` of an ingest function is rebound in its body")
+            from ..normal import clone
+            return ast.copy_location(clone(self.mapping[node.id]), node)
+        return node
+
+
+def instantiate(repo: Repo, cls: ast.ClassDef, hmod, handler: ast.AST, call: ast.Call, rec_at_site: str) -> Tuple[ast.FunctionDef, str]:
+    """The handler as the dispatcher calls it: a function of ``(self, <record>)`` in which every other parameter is
+    replaced by the argument expression of the call (``runs`` -> ``self._runs``), so that the state a module-level
+    function receives explicitly is analysed as what it is - a part of the aggregator."""
+    from ..normal import clone
+
+    b = bind_call(handler, call)
+    if b is None:
+        raise AnalysisError(f"{handler.name}: arguments of `{norm(call, 80)}` cannot be bound")
+    rp = [p for p, v in b.items() if isinstance(v, ast.Name) and v.id == rec_at_site]
+    if len(rp) != 1:
+        raise AnalysisError(f"{handler.name}: record parameter not found")
+    rec = rp[0]
+    new = clone(handler)
+    mapping: Dict[str, ast.AST] = {}
+    for p, v in b.items():
+        if p == rec:
+            continue
+        free = {x.id for x in ast.walk(v) if isinstance(x, ast.Name)}
+        if not free <= {"self"} or any(isinstance(x, (ast.Call, ast.Lambda)) for x in ast.walk(v)):
+            raise AnalysisError(f"{handler.name}: argument `{norm(v, 60)}` for parameter `{p}` is not aggregator state or a constant")
+        if isinstance(v, ast.Name) and v.id == p:
+            continue
+        mapping[p] = v
+    new.body = [_Rename(mapping).visit(st) for st in new.body] if mapping else new.body
+    new.args = ast.arguments(posonlyargs=[], args=[ast.arg(arg="self"), ast.arg(arg=rec)], kwonlyargs=[], kw_defaults=[], defaults=[], vararg=None, kwarg=None)
+    new.decorator_list = []
+    ast.fix_missing_locations(new)
+    from ..engine import _attach_parents
+    _attach_parents(new)
+    new._parent = cls  # type: ignore[attr-defined]
+    return new, rec
+
+
 def run(repo: Repo, R: Report) -> None:
     try:
         _run(repo, R)
@@ -1176,6 +1829,8 @@ def _run(repo: Repo, R: Report) -> None:
 
     cls = repo.cls(AGG, CLS)
     fresh_methods = fresh_result_methods(cls)
+    BOOL_FIELDS.clear()
+    BOOL_FIELDS.update(st.target.id for c in repo.module(MODELS).tree.body if isinstance(c, ast.ClassDef) and c.name.endswith("Aggregate") for st in c.body if isinstance(st, ast.AnnAssign) and isinstance(st.target, ast.Name) and dotted_name(st.annotation) == "bool")
     R.assume(
         "producer invariant (C06-D1/C09-D2): at most one pipeline_start / pipeline_end per run, one run_space_start / end per launch attempt, one SER per started node - the unique-per-key and last-writer stores commute under it",
         "prefixes of a real trace have seen the start record (it is the first record the runtime writes)",
@@ -1186,9 +1841,22 @@ def _run(repo: Repo, R: Report) -> None:
     r_reg = R.rule("C13-D1-registered-aggregates", "an aggregate object that an _ingest_* method merges into is taken from a container of the aggregator or, when constructed on the spot, is stored into one on every path before the merge takes effect (otherwise the first record seen for a key is lost and the verdict depends on the ingest order)", 5)
     r_keep = R.rule("C13-D1-entries-created-never-replaced", "a store `container[key] = aggregate` in an _ingest_* method is reached only when the lookup of that key found nothing (or writes back what the lookup gave), and no ingest step removes an entry or an element: an aggregate that already received merges is never replaced by a new one, whatever its state (CFG: every path to the store passes an edge that guarantees absence)", 6)
     r_hist = R.rule("C13-D1-merges-independent-of-history", "the unconditional merges of the ingest path (dispatch of a record to its _ingest_* method, flag := True, set add, counter) are not skipped by a test that reads state left behind by earlier records (aggregator attributes, module / class level cells, mutable defaults), except an idempotence guard; no function of the aggregation package reads process-lifetime state: what a record contributes does not depend on what was ingested before it", 14)
-    ingest_names = [n.name for n in cls.body if isinstance(n, FuncNode) and n.name.startswith("_ingest_")]
-    if len(ingest_names) < 5:
-        raise AnalysisError("fewer than five _ingest_* methods found")
+    from ..engine import qualname_of
+    from ..normal import normalize
+    D = read_dispatch(repo, cls)
+    # every record type reaches a function that merges it (decided on the CFG of the dispatcher's normal form with the
+    # tests on the record type evaluated for that type: if/elif chain, match, early returns, lookup table)
+    ing = repo.func(AGG, f"{CLS}.ingest")
+    for T in WANTED:
+        R.check(T not in D.uncovered, r_store, AGG, f"{CLS}.ingest", f"dispatch covers record type {T!r}", f"a record of type {T!r} can leave ingest() without having been handed to a function that merges it: it is silently ignored", ing.lineno, path=D.uncovered.get(T) or None, what_ok="dispatched")
+    types_of: Dict[int, Set[str]] = {}
+    first_call: Dict[int, Tuple[object, ast.AST, ast.Call]] = {}
+    for T in WANTED:
+        for _st, m2, h, c in D.by_type[T]:
+            types_of.setdefault(id(h), set()).add(T)
+            first_call.setdefault(id(h), (m2, h, c))
+    if not first_call:
+        raise AnalysisError("no ingest function found behind the dispatcher")
     from .c04_rest import process_state_cells
     agg_mod = repo.module(AGG)
     cells = process_state_cells(repo, agg_mod)
@@ -1197,29 +1865,20 @@ def _run(repo: Repo, R: Report) -> None:
     pure = _pure_methods(cls)
     config = _config_attrs(cls)
     model_classes = {c.name for c in repo.module(MODELS).tree.body if isinstance(c, ast.ClassDef)}
-    for name in ingest_names:
-        fn = nfunc(repo, AGG, f"{CLS}.{name}")
+    for hid, (hmod, handler, hcall) in first_call.items():
+        types = types_of[hid]
+        qual = qualname_of(handler)
+        inst, rec = instantiate(repo, cls, hmod, handler, hcall, D.rec)
+        fn = normalize(repo, hmod, inst)
         merge_sites: List[Tuple[ast.stmt, str, Optional[ast.AST]]] = []
-        if len(fn.args.args) < 2:
-            raise AnalysisError(f"{name}: record parameter not found")
-        rec = fn.args.args[1].arg
-        # key variables: locals assigned from record reads that are tested by the early `if not k: return`
+        state = _state_aliases(fn, {"self"}, fresh_methods)
+        # locals that hold (a function of) record fields
         derived: Dict[str, ast.AST] = {}
         for n in walk_no_nested(fn):
             if isinstance(n, ast.Assign) and len(n.targets) == 1 and isinstance(n.targets[0], ast.Name):
                 if _is_record_read(n.value, rec) or any(isinstance(x, ast.Name) and x.id in derived for x in ast.walk(n.value)):
                     derived[n.targets[0].id] = n.value
-        key_vars: Set[str] = set()
-        for st in fn.body:
-            if isinstance(st, ast.If) and any(isinstance(x, ast.Return) for x in st.body):
-                key_vars |= {x.id for x in ast.walk(st.test) if isinstance(x, ast.Name)}
-        key_vars |= {k for k, v in derived.items() if isinstance(v, ast.Tuple)}
-        # in pipeline_start the launch key is formed later
-        for n in walk_no_nested(fn):
-            if isinstance(n, ast.Assign) and isinstance(n.value, ast.Tuple) and len(n.targets) == 1 and isinstance(n.targets[0], ast.Name):
-                if all(isinstance(e, ast.Name) and e.id in derived for e in n.value.elts):
-                    key_vars.add(n.targets[0].id)
-                    key_vars |= {e.id for e in n.value.elts}
+        keys_of = registration_keys(fn, state, model_classes)
         for n in walk_no_nested(fn):
             targets: List[ast.AST] = []
             if isinstance(n, ast.Assign):
@@ -1227,49 +1886,85 @@ def _run(repo: Repo, R: Report) -> None:
             elif isinstance(n, ast.AugAssign) and isinstance(n.target, (ast.Attribute, ast.Subscript)):
                 targets = [n.target]
             for t in targets:
-                kind, detail = classify_store(fn, n, t, rec, key_vars, derived)
+                kind, detail = classify_store(fn, n, t, rec, keys_of, derived, types)
                 ok = not kind.startswith("bad") and kind != "unclassified"
-                R.check(ok, r_store, AGG, f"{CLS}.{name}", norm(n), detail if kind.startswith("bad") else f"store into {detail} is not one of the commutative merge forms: the aggregate depends on the order records are ingested", n.lineno, what_ok=kind)
+                R.check(ok, r_store, AGG, qual, norm(n), detail if kind.startswith("bad") else f"store into {detail} is not one of the commutative merge forms: the aggregate depends on the order records are ingested", n.lineno, what_ok=kind)
                 if kind in ("flag", "counter"):
                     merge_sites.append((n, kind, t))
             if isinstance(n, ast.Expr) and isinstance(n.value, ast.Call) and isinstance(n.value.func, ast.Attribute):
                 m = n.value.func.attr
+                on_state = _root_name(n.value.func) in (state | keys_of.fresh) - {rec}
                 if m in ("add", "update"):
-                    R.ok(r_store, AGG, f"{CLS}.{name}", norm(n), "set-merge", n.lineno)
-                    if _root_name(n.value.func) in _state_aliases(fn, {"self"}, fresh_methods):
+                    R.ok(r_store, AGG, qual, norm(n), "set-merge", n.lineno)
+                    if _root_name(n.value.func) in state:
                         merge_sites.append((n, "set-add" if m == "add" else "set-merge", n.value if m == "add" else None))
-                elif m in ("append", "extend", "insert", "pop", "remove", "clear", "setdefault", "popitem", "discard"):
-                    R.violation(r_store, AGG, f"{CLS}.{name}", norm(n), f"`{m}` on aggregate state is order-dependent / not a merge", n.lineno)
+                elif m == "setdefault" and on_state and len(n.value.args) == 2 and (isinstance(n.value.args[1], ast.Constant) or (isinstance(n.value.args[1], ast.Call) and call_name(n.value.args[1]) in model_classes and not bad_ctor_args(n.value.args[1], rec, keys_of(n.value.args[1])))):
+                    R.ok(r_store, AGG, qual, norm(n), "create-if-absent", n.lineno)
+                elif m in ("append", "extend", "insert", "pop", "remove", "clear", "setdefault", "popitem", "discard") and on_state:
+                    R.violation(r_store, AGG, qual, norm(n), f"`{m}` on aggregate state is order-dependent / not a merge", n.lineno)
         for c in calls_in(fn):
-            if isinstance(c.func, ast.Name) and c.func.id.endswith("Aggregate"):
-                bad = bad_ctor_args(c, rec, key_vars)
-                R.check(not bad, r_store, AGG, f"{CLS}.{name}", norm(c), bad, c.lineno, what_ok="constructed from its key only")
-        check_entries_kept(R, r_keep, fn, f"{CLS}.{name}", rec, fresh_methods, model_classes)  # first: a removal is a located violation even when the shape below is unknown
-        check_registered(R, r_reg, fn, f"{CLS}.{name}", rec, fresh_methods)
-        check_history_free(R, r_hist, fn, f"{CLS}.{name}", merge_sites, hist_seeds, method_names, pure, config)
+            if isinstance(c.func, ast.Name) and c.func.id in model_classes and c.func.id.endswith("Aggregate"):
+                bad = bad_ctor_args(c, rec, keys_of(c))
+                R.check(not bad, r_store, AGG, qual, norm(c), bad, c.lineno, what_ok="constructed from its key only")
+        check_entries_kept(R, r_keep, fn, qual, rec, fresh_methods, model_classes)  # first: a removal is a located violation even when the shape below is unknown
+        check_registered(R, r_reg, fn, qual, rec, fresh_methods)
+        check_history_free(R, r_hist, fn, qual, merge_sites, hist_seeds, method_names, pure, config)
     # the dispatchers: a record reaches its merge whatever was ingested before
-    for disp, callee_ok, least in (("ingest", lambda a: a.startswith("_ingest_"), 5), ("ingest_many", lambda a: a == "ingest" or a.startswith("_ingest_"), 1)):
-        dfn = nfunc(repo, AGG, f"{CLS}.{disp}", keep=tuple(ingest_names) + ("ingest",))
-        dsites: List[Tuple[ast.stmt, str, Optional[ast.AST]]] = []
-        for c in calls_in(dfn):
-            if isinstance(c.func, ast.Attribute) and isinstance(c.func.value, ast.Name) and c.func.value.id == "self" and callee_ok(c.func.attr):
-                dsites.append((stmt_of(c), f"dispatch to {c.func.attr}", None))
-        if len(dsites) < least:
-            raise AnalysisError(f"{CLS}.{disp}: dispatch calls to the _ingest_* methods not found ({len(dsites)} < {least})")
-        check_history_free(R, r_hist, dfn, f"{CLS}.{disp}", dsites, hist_seeds, method_names, pure, config)
+    dsites: List[Tuple[ast.stmt, str, Optional[ast.AST]]] = []
+    for T in WANTED:
+        for st, _m2, h, _c in D.by_type[T]:
+            if not any(st is s for s, _k, _x in dsites):
+                dsites.append((st, f"dispatch to {h.name}", None))
+    check_history_free(R, r_hist, D.fn, f"{CLS}.ingest", dsites, hist_seeds, method_names, pure, config)
+    keep = tuple(sorted({h.name for _m, h in D.handlers.values()})) + ("ingest",)
+    mfn = nfunc(repo, AGG, f"{CLS}.ingest_many", keep=keep)
+    msites: List[Tuple[ast.stmt, str, Optional[ast.AST]]] = []
+    for c in calls_in(mfn):
+        for _m2, t in repo.resolve_call(agg_mod, c):
+            if t is ing or id(t) in D.handlers:
+                msites.append((stmt_of(c), f"dispatch to {t.name}", None))
+                break
+    if not msites:
+        raise AnalysisError(f"{CLS}.ingest_many: no call that hands the records to ingest() found")
+    check_history_free(R, r_hist, mfn, f"{CLS}.ingest_many", msites, hist_seeds, method_names, pure, config)
+    # the batch is walked once: a second pass over the parameter sees nothing when the caller hands in a one-shot
+    # iterator (k-way interleaving of per-run files), so which records are merged would depend on the kind of iterable
+    from ..cfg import reaching_defs as _rdefs
+    if len(mfn.args.args) >= 2:
+        batch = mfn.args.args[1].arg
+        mg = _cfg_of(mfn)
+        uses = []
+        for x in ast.walk(mfn):
+            if isinstance(x, ast.Name) and x.id == batch and isinstance(x.ctx, ast.Load):
+                st = stmt_of(x)
+                nids = mg.nodes_for(st)
+                if not nids or not _rdefs(mg, batch, nids[0]):
+                    uses.append(x)
+        in_loop = [x for x in uses if any(isinstance(a, (ast.For, ast.While)) and not (isinstance(a, ast.For) and any(x is y for y in ast.walk(a.iter))) for a in ancestors(x) if a is not mfn)]
+        R.check(len(uses) <= 1 and not in_loop, r_hist, AGG, f"{CLS}.ingest_many", f"`{batch}` is traversed once", f"the batch parameter `{batch}` is read {len(uses)} times{' (inside a loop)' if in_loop else ''}: a one-shot iterator is exhausted by the first traversal and the records of the later one are never ingested, so the aggregate depends on how the caller supplies the same records", mfn.lineno, what_ok="single traversal")
     check_no_process_cells(R, r_hist, repo, cls)
-    # every record type dispatched to its own ingest method
-    ing = repo.func(AGG, f"{CLS}.ingest")
-    wanted = {"run_space_start", "run_space_end", "pipeline_start", "pipeline_end", "ser"}
-    got = {c.comparators[0].value for c in ast.walk(ing) if isinstance(c, ast.Compare) and isinstance(c.comparators[0], ast.Constant)}
-    R.check(wanted <= got, r_store, AGG, f"{CLS}.ingest", "dispatch covers the five record types", f"record types {sorted(wanted - got)} are silently ignored by ingest()", ing.lineno)
 
     # ---------------------------------------------------------------- D2
     r_of = R.rule("C13-D2-order-free-verdicts", "completeness fields built from sets/dicts are sorted; finalisation writes into aggregator state (directly or through a local that aliases it) only idempotent min/max fall-backs", 5)
     r_tot = R.rule("C13-D2-total-on-partial-state", "a field of an aggregate that stays None until its record arrives is never ordered (<, >, sort / min / max key) without a None guard: every subset of records gets a verdict instead of a TypeError", 6)
-    fr = nfunc(repo, AGG, f"{CLS}.finalize_run", keep=("_expected_nodes",))
-    fl = nfunc(repo, AGG, f"{CLS}.finalize_launch", keep=("_expected_nodes",))
-    fa = nfunc(repo, AGG, f"{CLS}.finalize_all", keep=("_expected_nodes",))
+    # the function that turns the stored canonical spec into the set of expected nodes: whoever receives
+    # `<run>.pipeline_spec_canonical` on the finalisation path
+    en = None
+    clo = repo.call_graph_closure([(agg_mod, repo.func(AGG, f"{CLS}.finalize_run"))], stop=lambda m, n: m is not agg_mod)
+    for m_, f_, _p in sorted(clo.values(), key=lambda t: getattr(t[1], "lineno", 0)):
+        if m_ is not agg_mod:
+            continue
+        for c in calls_in(f_):
+            if any(isinstance(a, ast.Attribute) and a.attr == "pipeline_spec_canonical" for a in list(c.args) + [k.value for k in c.keywords]):
+                for m2_, t_ in repo.resolve_call(m_, c):
+                    if m2_ is agg_mod and isinstance(t_, FuncNode) and en is None:
+                        en = t_
+    if en is None:
+        raise AnalysisError("finalize_run: no function receives <run>.pipeline_spec_canonical (expected nodes)")
+    exp_helper = en.name
+    fr = nfunc(repo, AGG, f"{CLS}.finalize_run", keep=(exp_helper,))
+    fl = nfunc(repo, AGG, f"{CLS}.finalize_launch", keep=(exp_helper,))
+    fa = nfunc(repo, AGG, f"{CLS}.finalize_all", keep=(exp_helper,))
     ctor, ctor_stmt = _final_ctor(fr, "RunCompleteness")
     lctor, lctor_stmt = _final_ctor(fl, "LaunchCompleteness")
     for kw in ("missing_nodes", "orphan_nodes", "nonterminal_nodes"):
@@ -1293,7 +1988,7 @@ def _run(repo: Repo, R: Report) -> None:
             stmt = st if isinstance(st, ast.stmt) else stmt_of(st)
             kind = "call"
             if isinstance(st, (ast.Assign, ast.AugAssign, ast.AnnAssign)) and isinstance(obj, ast.Attribute):
-                kind, _detail = classify_store(fn, st, obj, "___", set(), {})
+                kind, _detail = classify_store(fn, st, obj, "___", lambda c: set(), {})
             via = "" if root == "self" else f" (`{root}` refers to aggregator state)"
             R.check(kind == "minmax", r_of, AGG, f"{CLS}.{fn.name}", norm(stmt), f"finalisation mutates aggregate state in a non-idempotent way{via}: finalising twice (or before/after more records) changes the verdict", getattr(stmt, "lineno", 0))
     opt = optional_fields(repo)
@@ -1325,14 +2020,19 @@ def _run(repo: Repo, R: Report) -> None:
     obs_forms = {_d(_expr(s.replace("RUN", runv))) for s in ("RUN.nodes", "set(RUN.nodes)", "set(RUN.nodes.keys())", "RUN.nodes.keys()", "frozenset(RUN.nodes)", "frozenset(RUN.nodes.keys())", "{*RUN.nodes}", "set(RUN.nodes or ())")}
     obs_names = {n.targets[0].id for n in walk_no_nested(fr) if isinstance(n, ast.Assign) and len(n.targets) == 1 and isinstance(n.targets[0], ast.Name) and _d(n.value) in obs_forms and len(assigned_value(fr, n.targets[0].id)) == 1}
     obs_names |= {n.target.id for n in walk_no_nested(fr) if isinstance(n, ast.AnnAssign) and isinstance(n.target, ast.Name) and n.value is not None and _d(n.value) in obs_forms and len(assigned_value(fr, n.target.id)) == 1}
-    exp_form = _d(_expr(f"_expected_nodes({runv}.pipeline_spec_canonical)"))
-    exp_names = {n.targets[0].id for n in walk_no_nested(fr) if isinstance(n, ast.Assign) and len(n.targets) == 1 and isinstance(n.targets[0], ast.Name) and _d(n.value) == exp_form and len(assigned_value(fr, n.targets[0].id)) == 1}
+    spec_form = _d(_expr(f"{runv}.pipeline_spec_canonical"))
+
+    def is_exp_call(e: ast.AST) -> bool:
+        return isinstance(e, ast.Call) and call_attr(e) == exp_helper and (isinstance(e.func, ast.Name) or (isinstance(e.func, ast.Attribute) and isinstance(e.func.value, ast.Name) and e.func.value.id in ("self", CLS))) and [_d(a) for a in list(e.args) + [k.value for k in e.keywords]] == [spec_form]
+
+    exp_names = {n.targets[0].id for n in walk_no_nested(fr) if isinstance(n, ast.Assign) and len(n.targets) == 1 and isinstance(n.targets[0], ast.Name) and is_exp_call(n.value) and len(assigned_value(fr, n.targets[0].id)) == 1}
+    exp_names |= {n.target.id for n in walk_no_nested(fr) if isinstance(n, ast.AnnAssign) and isinstance(n.target, ast.Name) and n.value is not None and is_exp_call(n.value) and len(assigned_value(fr, n.target.id)) == 1}
 
     def is_obs(e: ast.AST) -> bool:
         return (isinstance(e, ast.Name) and e.id in obs_names) or _d(e) in obs_forms
 
     def is_exp(e: ast.AST) -> bool:
-        return (isinstance(e, ast.Name) and e.id in exp_names) or _d(e) == exp_form
+        return (isinstance(e, ast.Name) and e.id in exp_names) or is_exp_call(e)
 
     d_start, d_end = _d(_expr(f"{runv}.saw_start")), _d(_expr(f"{runv}.saw_end"))
 
@@ -1352,14 +2052,28 @@ def _run(repo: Repo, R: Report) -> None:
     R.extra["run_verdict_table"] = {"".join("1" if b else "0" for b in k): repr(v) if isinstance(v, _Unknown) else v for k, v in tt.items()}
 
     # roll-up: counts come from finalize_run of each run in launch.pipelines, into a counter created by this call
-    loops = [n for n in walk_no_nested(fl) if isinstance(n, ast.For) and _d(n.iter) in (_d(_expr(f"{launchv}.pipelines")), _d(_expr(f"sorted({launchv}.pipelines)")), _d(_expr(f"list({launchv}.pipelines)")))]
+    def traversed(it: ast.AST) -> Tuple[ast.AST, bool]:
+        """What a loop header walks over, without the wrappers that keep the elements (and whether it is enumerated)."""
+        enum = False
+        while isinstance(it, ast.Call) and call_name(it) in ("sorted", "list", "tuple", "iter", "reversed", "set", "frozenset", "enumerate") and it.args and not (call_name(it) != "enumerate" and it.keywords):
+            enum = enum or call_name(it) == "enumerate"
+            it = it.args[0]
+        return it, enum
+
+    loops = []
+    for n in walk_no_nested(fl):
+        if isinstance(n, ast.For):
+            base, enum = traversed(n.iter)
+            if _d(base) == _d(_expr(f"{launchv}.pipelines")):
+                loops.append((n, enum))
     counts_var: Optional[str] = None
     ok = False
     loop_stmt = "for run_id in launch.pipelines: counts[finalize_run(run_id).status] += 1"
-    for lp in loops:
-        if not isinstance(lp.target, ast.Name) or ok:
+    for lp, enum in loops:
+        tgt = lp.target.elts[1] if enum and isinstance(lp.target, ast.Tuple) and len(lp.target.elts) == 2 else None if enum else lp.target
+        if not isinstance(tgt, ast.Name) or ok:
             continue
-        it = lp.target.id
+        it = tgt.id
         verdict_of_run = _d(_expr(f"self.finalize_run({it})"))
         holders = {n.targets[0].id for n in walk_no_nested(lp) if isinstance(n, ast.Assign) and len(n.targets) == 1 and isinstance(n.targets[0], ast.Name) and _d(n.value) == verdict_of_run}
         incs = [n for n in walk_no_nested(lp) if isinstance(n, ast.AugAssign) and isinstance(n.op, ast.Add) and isinstance(n.value, ast.Constant) and n.value.value == 1 and isinstance(n.target, ast.Subscript) and isinstance(n.target.value, ast.Name)]
@@ -1379,6 +2093,13 @@ def _run(repo: Repo, R: Report) -> None:
         init = assigned_value(fl, counts_var)
         fresh = len(init) == 1 and isinstance(init[0], ast.Dict) and all(isinstance(v, ast.Constant) and v.value == 0 for v in init[0].values) and {k.value for k in init[0].keys if isinstance(k, ast.Constant)} == {"complete", "partial", "invalid"}
         fresh = fresh or (len(init) == 1 and isinstance(init[0], ast.Call) and call_name(init[0]) in ("Counter", "defaultdict") and not (init[0].args and call_name(init[0]) == "Counter"))
+        labels = {"complete", "partial", "invalid"}
+        def label_seq(e: ast.AST) -> bool:
+            return isinstance(e, (ast.Tuple, ast.List, ast.Set)) and all(isinstance(x, ast.Constant) for x in e.elts) and {x.value for x in e.elts} == labels
+        if len(init) == 1 and isinstance(init[0], ast.Call) and call_name(init[0]) == "dict.fromkeys" and len(init[0].args) == 2 and label_seq(init[0].args[0]) and isinstance(init[0].args[1], ast.Constant) and init[0].args[1].value == 0 and init[0].args[1].value is not False:
+            fresh = True
+        if len(init) == 1 and isinstance(init[0], ast.DictComp) and len(init[0].generators) == 1 and not init[0].generators[0].ifs and label_seq(init[0].generators[0].iter) and _d(init[0].key) == _d(init[0].generators[0].target) and isinstance(init[0].value, ast.Constant) and init[0].value.value == 0 and init[0].value.value is not False:
+            fresh = True
         R.check(fresh, r_tab, AGG, f"{CLS}.finalize_launch", "roll-up counter starts from zero in every finalisation", f"the roll-up counter `{counts_var}` is not a zeroed counter created by this call ({norm(init[0]) if init else 'no initialisation'}): counts of earlier finalisations leak into this one", fl.lineno)
 
     l_start, l_end, l_runs = (_d(_expr(f"{launchv}.{a}")) for a in ("saw_start", "saw_end", "pipelines"))
@@ -1444,6 +2165,7 @@ def _run(repo: Repo, R: Report) -> None:
         for d, val in defs:
             subs = [b for b in ast.walk(val) if isinstance(b, ast.BinOp) and isinstance(b.op, ast.Sub)]
             ok = ok or any(lf(b.left) and rf(b.right) for b in subs)
+            ok = ok or any(isinstance(c, ast.Call) and isinstance(c.func, ast.Attribute) and c.func.attr == "difference" and len(c.args) == 1 and not c.keywords and lf(c.func.value) and rf(c.args[0]) for c in ast.walk(val))
             gtests: List[ast.AST] = [t for t, _pol in _guards(d, fr)]
             for e in ast.walk(val):
                 if isinstance(e, ast.IfExp):
@@ -1458,7 +2180,12 @@ def _run(repo: Repo, R: Report) -> None:
         R.check(guard_ok, r_tab, AGG, f"{CLS}.finalize_run", f"{kw} computed whenever the canonical spec is known", f"{kw} is only computed under an extra condition (e.g. only when some SER was seen): a run cut right after pipeline_start reports no missing nodes", ctor.lineno)
     # observed = keys of run.nodes; expected from the stored canonical spec
     R.check(bool(obs_names) or any(_d(x) in obs_forms - {_d(_expr(f"{runv}.nodes"))} for x in ast.walk(fr)), r_tab, AGG, f"{CLS}.finalize_run", "observed_nodes = set(run.nodes)", "observed nodes are not the nodes with a SER", fr.lineno)
-    R.check(bool(exp_names) or any(_d(x) == exp_form for x in ast.walk(fr)), r_tab, AGG, f"{CLS}.finalize_run", "expected from run.pipeline_spec_canonical", "expected nodes do not come from the run's canonical spec", fr.lineno)
-    en = repo.func(AGG, "_expected_nodes")
-    src = ast.unparse(en)
-    R.check("node_uuid" in src and ".add(" in src and not any(isinstance(n, (ast.Break,)) for n in ast.walk(en)), r_tab, AGG, "_expected_nodes", "collects node_uuid of every canonical node", "expected-node extraction drops nodes", en.lineno)
+    R.check(bool(exp_names) or any(is_exp_call(x) for x in ast.walk(fr)), r_tab, AGG, f"{CLS}.finalize_run", "expected from run.pipeline_spec_canonical", "expected nodes do not come from the run's canonical spec", fr.lineno)
+    collects = any(isinstance(x, ast.Call) and isinstance(x.func, ast.Attribute) and x.func.attr in ("add", "update") for x in ast.walk(en)) or any(isinstance(x, ast.SetComp) or (isinstance(x, ast.Call) and call_name(x) in ("set", "frozenset") and x.args and isinstance(x.args[0], (ast.GeneratorExp, ast.ListComp))) for x in ast.walk(en))
+    cut_short = any(isinstance(x, ast.Break) for x in ast.walk(en)) or any(isinstance(x, ast.Return) for lp in ast.walk(en) if isinstance(lp, (ast.For, ast.While)) for x in ast.walk(lp))
+    reads_uuid = any(isinstance(x, ast.Constant) and x.value == "node_uuid" for x in ast.walk(en))
+    # nothing is taken out of the collection again (`collected &= ..`, `-=`, discard / remove / intersection_update)
+    for x in ast.walk(en):
+        if (isinstance(x, ast.AugAssign) and isinstance(x.op, (ast.BitAnd, ast.Sub, ast.BitXor))) or (isinstance(x, ast.Call) and isinstance(x.func, ast.Attribute) and x.func.attr in REMOVERS):
+            cut_short = True
+    R.check(reads_uuid and collects and not cut_short, r_tab, AGG, qualname_of(en), "collects node_uuid of every canonical node", "expected-node extraction drops nodes", en.lineno)
